@@ -396,12 +396,31 @@ def e2e_strategy(tier):
     return strategies.single_tls_scenario(combos=combos, max_records=10, max_len=600 if tier == "quick" else 3000, delivery=delivery())
 
 
+def zero_displaced_specs():
+    """sequence number 0 exactly at the start of a segment (k-th of its direction) x a segment displaced by one or two places: every pairing
+    of k and of the displaced segment for a fixed connection, so that the segment that starts at 0 is itself captured late, or early, or is
+    the one a displaced segment is waiting for"""
+    out = []
+    hist = [[0, 30, 0], [0, 31, 0], [1, 50, 0], [1, 51, 0], [0, 32, 0], [0, 33, 0], [0, 34, 0], [1, 52, 0], [1, 53, 0], [1, 54, 0], [0, 35, 0]]
+    j = 0
+    for ver, suite in ((tlsref.TLS12, 0xC02F), (tlsref.TLS13, 0x1301)):
+        for k in range(0, 9):
+            for i in range(0, 22):
+                for d in (1, 2):
+                    out.append({"conns": [{"kind": "tls", "seed": 5200 + (j % 7), "version": ver, "suite": suite, "history": hist, "cert_len": 60,
+                                           "tcp": {"mode": "rec", "syn": bool(j % 2), "acks": False, "mss": 1400, "isn_c": ["zero_at", k], "isn_s": ["zero_at", k],
+                                                   "moves": [[i, d]], "ack_model": ["capture", "wire"][j % 2]}}], "tseed": 1 + j % 5})
+                    j += 1
+    return out
+
+
 def stages(tier):
     quick = tier == "quick"
     return [
         machine_stage("reassembly-machine", make_machine, runs=4000 if quick else 200000, steps=30, evaluate=evaluate_component),
         Stage("exhaustive-cut-subsets", evaluate_exhaustive, specs=exhaustive_cut_specs(64 if quick else 2000, 11)),
         Stage("late-duplicates", evaluate_late_dups, strategy=lambda t: late_dup_spec(), examples=600 if quick else 20000),
+        Stage("sequence-zero-at-a-displaced-segment", evaluate_e2e, specs=zero_displaced_specs()),
         Stage("e2e-schedules", evaluate_e2e, strategy=e2e_strategy, examples=600 if quick else 20000),
         Stage("probe-F05r", evaluate_e2e, specs=[F05R_REPRO], probe="F05r", serial=True),
     ]
